@@ -23,11 +23,6 @@ pub fn decode_request(buf: &[u8]) -> Result<Option<RequestAdu>> {
                     log::error!("Failed to decode request PDU: {err}");
                 })
         })
-        .map_err(|_| {
-            // Decoding the transport frame is non-destructive and must
-            // never fail!
-            unreachable!();
-        })
 }
 
 /// Encode an RTU response.
